@@ -38,6 +38,7 @@
 (*                   annotated type of its package                         *)
 (*   GroupDocLeaks - the doc comment of T reaches the next, undocumented   *)
 (*                   spec of its type group                                *)
+(*   MutableByFieldName - @mutable fields indexed without their type     *)
 (*   RecvNameMemo  - what is known about T's receiver (its name) is kept   *)
 (*                   from the first method of T that is walked             *)
 (*   RecvBySyntax  - a receiver spelled *TA / *(T) is not recognised as T  *)
@@ -61,7 +62,7 @@ NameOfRecv(c) == CASE c.kind = "pmethQ" -> "q" [] c.kind = "pmeth0" -> "_" [] c.
 Kinds  == {"ctor1", "ctor2", "other", "pmeth", "pmethQ", "pmeth0", "vmeth", "cmeth", "ometh", "init", "pkgvar"}
 \* pmethQ: a pointer method of T whose receiver is called q (all others are called r); pmeth0: a pointer method with an unnamed receiver
 Stmts  == {"assignX", "assignM", "multiX", "compoundX", "compoundM", "incX", "decX", "incM", "indexXs", "indexMp",
-           "readX", "onU", "onTG", "onPkgVar", "local", "recvAssign", "recvInc", "recvDec", "starPlain", "starPlainInc",
+           "readX", "onU", "onTG", "onPkgVar", "onT2M", "local", "recvAssign", "recvInc", "recvDec", "starPlain", "starPlainInc",
            "onHidden",   \* d.Hidden().X = v : hidden is an unexported type of d (@immutable iff T is) handed out by an exported function
            "onT2"}   \* q.X = v with q *T2, a second @immutable type of d with `@constructor NewT2` (iff T is @immutable)
 Nests  == {"none", "if", "else", "for", "range", "switch", "select", "funclit", "defer", "go", "label",
@@ -90,6 +91,8 @@ Valid(c, pkg) ==
   /\ (c.stmt \in {"onT2", "onHidden", "local", "recvInc", "recvDec", "starPlain", "starPlainInc"} => c.ptr /\ c.sp = "direct" /\ c.via = "p")
   /\ (c.stmt = "onU" => c.ptr /\ c.sp \in {"direct", "fnalias"} /\ c.via = "p")
   \* onTG: a write to d.TG, the undocumented spec that follows T inside one `type ( ... )` group (T's doc is not TG's)
+  \* onT2M: a write to the field M of T2; M is @mutable in T2 exactly when it is in T (two types of one package share a @mutable field name)
+  /\ (c.stmt = "onT2M" => c.ptr /\ c.sp = "direct" /\ c.via = "p" /\ c.kind \notin {"pmethQ", "pmeth0"})
   \* onPkgVar: a write to a package-level variable of d (d.Counter = n): a qualified identifier, not a field selection
   /\ (c.stmt = "onPkgVar" => c.ptr /\ c.sp = "direct" /\ c.via = "p" /\ c.kind \notin {"pmethQ", "pmeth0"})
   /\ (c.stmt = "onTG" => c.ptr /\ c.sp = "direct" /\ c.via = "p" /\ c.kind \notin {"pmeth", "pmethQ", "pmeth0", "vmeth", "cmeth"})
@@ -104,12 +107,12 @@ FnName(c) == CASE c.kind = "ctor1" -> "NewT" [] c.kind = "ctor2" -> "MakeT" [] c
                [] c.kind = "pkgvar" -> "" [] OTHER -> "fn"
 RecvOf(c) == CASE c.kind \in {"pmeth", "pmethQ", "pmeth0", "vmeth"} -> "T" [] c.kind = "cmeth" -> "C" [] c.kind = "ometh" -> "O" [] OTHER -> ""
 
-WriteCode(s) == CASE s \in {"assignX", "assignM", "multiX", "recvAssign", "onT2", "onHidden"} -> "IMM01"
+WriteCode(s) == CASE s \in {"assignX", "assignM", "multiX", "recvAssign", "onT2", "onT2M", "onHidden"} -> "IMM01"
                   [] s \in {"compoundX", "compoundM"} -> "IMM02"
                   [] s \in {"incX", "decX", "incM", "recvInc", "recvDec"} -> "IMM03"
                   [] s \in {"indexXs", "indexMp"} -> "IMM04"
                   [] OTHER -> "none"
-OnMutableField(s) == s \in {"assignM", "compoundM", "incM"}
+OnMutableField(s) == s \in {"assignM", "compoundM", "incM", "onT2M"}
 
 (***************************************************************************)
 (* L1: the property, per container                                         *)
@@ -118,7 +121,7 @@ Verdict(c, ann, pkg) ==
   IF /\ ann.imm
      /\ WriteCode(c.stmt) # "none"
      /\ ~(OnMutableField(c.stmt) /\ ann.mut)
-     /\ ~(c.stmt \notin {"onT2", "onHidden"} /\ pkg = "d" /\ FnName(c) \in Range(ann.ctors) /\ c.kind \in {"ctor1", "ctor2"})
+     /\ ~(c.stmt \notin {"onT2", "onT2M", "onHidden"} /\ pkg = "d" /\ FnName(c) \in Range(ann.ctors) /\ c.kind \in {"ctor1", "ctor2"})
   THEN WriteCode(c.stmt) ELSE "none"     \* NewT / MakeT are constructors of T, not of T2
 
 Keys(p) == UNION {{<<f, i>> : i \in 1..Len(p.files[f])} : f \in 1..Len(p.files)}
@@ -151,7 +154,7 @@ InitProg ==
           /\ prog = [ann |-> ann, pkg |-> pkg, files |-> OneFile(Cont(k, s, v, p, "none", "direct"))]
   \/ /\ Mode = "spell"
      /\ \E ann \in {a \in Anns : ~a.noise}, pkg \in {"d", "u"}, k \in {"ctor1", "other", "init", "ometh"},
-          s \in Stmts \ {"onU", "onTG", "onPkgVar", "local", "recvAssign", "recvInc", "recvDec"}, p \in BOOLEAN, sp \in Spells :
+          s \in Stmts \ {"onU", "onTG", "onPkgVar", "onT2M", "local", "recvAssign", "recvInc", "recvDec"}, p \in BOOLEAN, sp \in Spells :
           /\ Valid(Cont(k, s, "p", p, "none", sp), pkg)
           /\ prog = [ann |-> ann, pkg |-> pkg, files |-> OneFile(Cont(k, s, "p", p, "none", sp))]
   \/ /\ Mode = "spell"     \* ... and every spelling of a method's receiver type
@@ -203,7 +206,7 @@ Seen(c) == ~("NoUnalias" \in Deviations /\ c.sp \in {"alias", "alias3", "chain",
 VisitVerdict(c) ==
   LET code == WriteCode(c.stmt)
       ownPkg == prog.pkg = "d" \/ "CtorAnyPkg" \in Deviations
-      ctorsOfType == IF c.stmt = "onT2" /\ ~("CtorAnyType" \in Deviations) THEN {"NewT2"}
+      ctorsOfType == IF c.stmt \in {"onT2", "onT2M"} /\ ~("CtorAnyType" \in Deviations) THEN {"NewT2"}
                      ELSE IF c.stmt = "onHidden" THEN {} ELSE Range(prog.ann.ctors)
       \* when package u has a function NewT / MakeT it also declares a type of its own called T with those constructors (TwinCtors)
       twinExempt == "CtorByBareName" \in Deviations /\ prog.pkg = "u" /\ cur \in TwinCtors
@@ -217,7 +220,8 @@ VisitVerdict(c) ==
        THEN (IF recv \in {"T", "C"} /\ ~exempt /\ ~("RecvNameMemo" \in Deviations /\ c.stmt = "recvAssign" /\ rname # NameOfRecv(c)) THEN code ELSE "none")
      ELSE IF ~Seen(c) THEN "none"
      ELSE IF exempt THEN "none"
-     ELSE IF OnMutableField(c.stmt) /\ prog.ann.mut THEN "none"
+     \* MutableByFieldName: the @mutable index keeps one entry per (package, field name): the first type (T) keeps it, T2 loses it
+     ELSE IF OnMutableField(c.stmt) /\ prog.ann.mut /\ ~("MutableByFieldName" \in Deviations /\ c.stmt = "onT2M") THEN "none"
      ELSE code
 
 Visit ==
